@@ -22,7 +22,7 @@ CHECKS = {
      'configs': {'quick': [P(k, h) for k in (3, 5, 6, 8) for h in range(8)], 'thorough': [P(k, h, _time=2500, _mem_gb=24) for k in (3, 5, 6, 8, 9, 10) for h in range(8)]},
      'selftest_config': P(4, 0), 'selftests': ['VS_SELFTEST_1']},
     {'name': 'roundtrip', 'src': 'harness/C13/roundtrip.cc', 'tus': ['timbuk_parser-nobison', 'timbuk_serializer'],
-     'configs': {'quick': [{'NST': 2, 'NSY': 2}], 'thorough': [{'NST': 2, 'NSY': 2}, {'NST': 2, 'NSY': 3, '_time': 2500}]},
+     'configs': {'quick': [{'NST': 2, 'NSY': 2}, {'NST': 2, 'NSY': 2, 'SHARED_NAMES': None}], 'thorough': [{'NST': 2, 'NSY': 2}, {'NST': 2, 'NSY': 2, 'SHARED_NAMES': None}, {'NST': 2, 'NSY': 3, '_time': 2500}]},
      'selftest_config': {'NST': 2, 'NSY': 2}, 'selftests': ['VS_SELFTEST_1']},
     {'name': 'loaddump_fa', 'src': 'harness/C13/roundtrip.cc', 'tus': ['timbuk_parser-nobison', 'timbuk_serializer', 'explicit_finite_aut', 'explicit_finite_aut_core', 'util', 'convert', 'symbolic'],
      'configs': {'quick': [{'NST': 2, 'NSY': 2, 'LOADDUMP': 1, 'LD_ENC': 1, 'DECL_FIXED': None, 'LD_AGAIN': 0}], 'thorough': [{'NST': 2, 'NSY': 2, 'LOADDUMP': 1, 'LD_ENC': 1, 'DECL_FIXED': None, 'LD_AGAIN': 0}, {'NST': 2, 'NSY': 2, 'LOADDUMP': 1, 'LD_ENC': 1, 'DECL_FIXED': None, 'LD_AGAIN': 1, '_time': 2500}]},
@@ -30,7 +30,7 @@ CHECKS = {
     # (load/dump of the BDD encodings in explicit symbol mode at rule level: no verdict within 1000 s at 8 free bits; their
     #  load/dump is compared by language in C08 and, for the symbolic mode, by meaning in symdump above)
     {'name': 'loaddump', 'src': 'harness/C13/roundtrip.cc', 'tus': ['timbuk_parser-nobison', 'timbuk_serializer'] + TREE_CORE + ['util', 'convert', 'symbolic'],
-     'configs': {'quick': [{'NST': 2, 'NSY': 2, 'LOADDUMP': 1}, {'NST': 2, 'NSY': 2, 'LOADDUMP': 1, 'LD_ALPHA': 1}], 'thorough': [{'NST': 2, 'NSY': 2, 'LOADDUMP': 1}, {'NST': 2, 'NSY': 2, 'LOADDUMP': 1, 'LD_ALPHA': 1}]},
+     'configs': {'quick': [{'NST': 2, 'NSY': 2, 'LOADDUMP': 1}, {'NST': 2, 'NSY': 2, 'LOADDUMP': 1, 'LD_ALPHA': 1}, {'NST': 2, 'NSY': 2, 'LOADDUMP': 1, 'SHARED_NAMES': None}], 'thorough': [{'NST': 2, 'NSY': 2, 'LOADDUMP': 1}, {'NST': 2, 'NSY': 2, 'LOADDUMP': 1, 'LD_ALPHA': 1}, {'NST': 2, 'NSY': 2, 'LOADDUMP': 1, 'SHARED_NAMES': None}]},
      'selftest_config': {'NST': 2, 'NSY': 2, 'LOADDUMP': 1}, 'selftests': ['VS_SELFTEST_1']},
   ],
  },
